@@ -986,7 +986,7 @@ Definition check_C15_factory (c : fcfg) (ws : list window) : bool :=
 Fixpoint windows_from (c : fcfg) (s : fstate) (cur_ops : list fop) (cur_evs : list ev)
                       (ops : list fop) : list window :=
   match ops with
-  | [] => match cur_ops with [] => [] | _ => [(cur_ops, cur_evs)] end
+  | [] => match cur_ops, cur_evs with [], [] => [] | _, _ => [(cur_ops, cur_evs)] end
   | o :: r =>
     let (s', e) := step c s o in
     match o with
